@@ -79,7 +79,8 @@ def transfer(kind, sz, value, sub, latency, junk, res, desc, sz_in=None,
             objs[index, sub] = value
     objs[0x7fff, 1] = b"\x05\x06"
     srv = bus.SdoServer(objs, mbx_in_size=sz_in, mbx_out_size=sz,
-                        strict_size=not lenient)
+                        strict_size=not lenient,
+                        ca_expedited=desc.get("ca_expedited", False))
     # an earlier session (another program, a restart) has left the
     # terminal's mailbox counter at some value
     srv.last_counter = desc.get("last_counter", 0)
@@ -145,6 +146,37 @@ def transfer(kind, sz, value, sub, latency, junk, res, desc, sz_in=None,
                 except asyncio.TimeoutError:
                     res.count("preludes_with_an_abandoned_upload")
                 t.mbx_resp_latency = lambda: next(lat, 0)
+            elif step == "contended":
+                # another process holds the terminal's record lock (lockf
+                # answers EAGAIN, which is all this process sees of it); the
+                # transfer that waits for it is given up; then the other
+                # process is done
+                import ebpfcat.lock as lockmod
+
+                class Fcntl:
+                    def __getattr__(self, n):
+                        return getattr(real_fcntl, n)
+
+                    def lockf(self, fd, cmd, *a):
+                        if cmd & real_fcntl.LOCK_EX:
+                            res.count("lockf_calls_answered_eagain")
+                            raise BlockingIOError(11, "held elsewhere")
+                        return real_fcntl.lockf(fd, cmd, *a)
+                real_fcntl = lockmod.fcntl
+                lockmod.fcntl = Fcntl()
+                try:
+                    t0 = asyncio.ensure_future(term.sdo_read(0x7fff, 1))
+                    for _ in range(desc.get("cancel_after", 3)):
+                        await asyncio.sleep(0)
+                    t0.cancel()
+                    try:
+                        await t0
+                        return ("raised", "transfer ended without the lock")
+                    except asyncio.CancelledError:
+                        res.count("preludes_cancelled_waiting_for_another_"
+                                  "process")
+                finally:
+                    lockmod.fcntl = real_fcntl
             elif step == "fail":
                 try:
                     await asyncio.wait_for(term.sdo_read(0x7ffe, 1), 2000)
@@ -177,7 +209,7 @@ def transfer(kind, sz, value, sub, latency, junk, res, desc, sz_in=None,
     mode = ("expedited" if len(value) <= 4 and sub is not None
             else "normal" if len(value) <= lim else "segmented")
     if kind == "read" and sub is None and len(value) <= lim:
-        mode = "normal"
+        mode = "expedited" if desc.get("ca_expedited") else "normal"
     res.count(f"{kind}[{mode}{'/ca' if sub is None else ''}]"
               + ("[lenient]" if lenient else "")
               + ("[asym]" if sz_in != sz else ""))
@@ -372,6 +404,15 @@ def run_shard(params):
                                                 "ok+fail", "timeout"]),
                             parallel_lock=rng.random() < 0.4,
                             value=value.hex()[:64])
+                if rng.random() < 0.12:
+                    desc.update(prelude=rng.choice(["contended",
+                                                    "ok+contended"]),
+                                parallel_lock=True,
+                                cancel_after=rng.randint(1, 9))
+                if kind == "read" and sub is None and ln <= 4:
+                    desc["ca_expedited"] = rng.random() < 0.6
+                    if desc["ca_expedited"]:
+                        res.count("complete_access_uploads_answered_expedited")
                 res.case(desc, nontrivial=ln >= 1)
                 transfer(kind, sz, value, sub, latency, junk, res, desc)
     for _ in range(40 if params["tier"] == "quick" else 400):
